@@ -57,6 +57,9 @@ func TestMain(m *testing.M) {
 
 const nKeys = 6
 
+// throwaway names the unfunded extra key (either address form).
+func (w who) throwaway() bool { return w.K == nKeys }
+
 type acct struct {
 	priv    crypto.PrivKey // secp256k1
 	privEth crypto.PrivKey // same scalar under the secp256k1eth driver (proxy-exec transactions)
@@ -73,7 +76,7 @@ var accts = func() []acct {
 	if err != nil {
 		panic(err)
 	}
-	out := make([]acct, nKeys)
+	out := make([]acct, nKeys+1) // the last one is a throwaway key that is never funded (and never blocked)
 	for i := range out {
 		b := bytes.Repeat([]byte{byte(0x21 + i)}, 32)
 		p, err := c.PrivKeyFromBytes(b)
@@ -311,19 +314,21 @@ func (w *world) sign(tx *types.Transaction, sh txShape) {
 
 // built is an item ready for both levels.
 type built struct {
-	spec     itemSpec
-	expanded []*types.Transaction // block form (group members carry the group hash)
-	pool     *types.Transaction   // pool form (single, or head clone carrying the whole group)
-	touch    []bool               // per member: touches a blocked account
-	touchAny bool
-	deep     bool   // touching only in a non-canonical spelling, a non-head member or an inner transaction
-	proxyRcp bool   // single proxy-exec transaction touching only through the recipient of its inner transaction
-	tailOnly bool   // group whose head does not touch but a later member does
-	freeTo   []bool // per member: touches only through the payload while tx.To is neither the executor's address nor blocked
+	spec       itemSpec
+	expanded   []*types.Transaction // block form (group members carry the group hash)
+	pool       *types.Transaction   // pool form (single, or head clone carrying the whole group)
+	touch      []bool               // per member: touches a blocked account
+	touchAny   bool
+	deep       bool   // touching only in a non-canonical spelling, a non-head member or an inner transaction
+	proxyRcp   bool   // single proxy-exec transaction touching only through the recipient of its inner transaction
+	tailOnly   bool   // group whose head does not touch but a later member does
+	freeTo     []bool // per member: touches only through the payload while tx.To is neither the executor's address nor blocked
+	senderOnly bool   // every touching member touches through its sender (signature) -- nothing the transaction id covers
 }
 
-func (w *world) buildItem(spec itemSpec, blocked map[who]bool) *built {
-	b := &built{spec: spec}
+// buildBody builds the unsigned transactions of an item (grouped when there are several).  Transaction.Hash() does not
+// cover the signature, so everything signed from one body -- by whatever keys -- has the same transaction ids.
+func (w *world) buildBody(spec itemSpec) []*types.Transaction {
 	txs := make([]*types.Transaction, len(spec.Txs))
 	for i, sh := range spec.Txs {
 		txs[i] = w.build(sh)
@@ -335,8 +340,21 @@ func (w *world) buildItem(spec itemSpec, blocked map[who]bool) *built {
 		}
 		txs = g.Txs
 	}
-	for i, sh := range spec.Txs {
-		w.sign(txs[i], sh)
+	return txs
+}
+
+// signBody signs a copy of the body, member i by signers[i] (nil: the senders named in the spec), and judges it
+// against the given blacklist.
+func (w *world) signBody(body []*types.Transaction, spec itemSpec, signers []who, blocked map[who]bool) *built {
+	b := &built{spec: itemSpec{Route: spec.Route, Txs: append([]txShape(nil), spec.Txs...)}, senderOnly: true}
+	spec = b.spec
+	txs := make([]*types.Transaction, len(body))
+	for i := range body {
+		if signers != nil {
+			spec.Txs[i].S = signers[i]
+		}
+		txs[i] = types.CloneTx(body[i])
+		w.sign(txs[i], spec.Txs[i])
 	}
 	b.expanded = txs
 	b.pool = txs[0]
@@ -354,6 +372,9 @@ func (w *world) buildItem(spec itemSpec, blocked map[who]bool) *built {
 			continue
 		}
 		b.touchAny = true
+		if byR || byTo {
+			b.senderOnly = false
+		}
 		if sh.Kind != kProxy && i == 0 && (bySender || byR && !sh.R.nonCanonical() || byTo && !sh.ToAcct.nonCanonical()) || sh.Kind == kProxy && bySender && i == 0 {
 			shallow = true
 		}
@@ -361,9 +382,14 @@ func (w *world) buildItem(spec itemSpec, blocked map[who]bool) *built {
 			b.proxyRcp = true // signature of finding C31-pool-proxy-inner-recipient
 		}
 	}
+	b.senderOnly = b.senderOnly && b.touchAny
 	b.deep = b.touchAny && !shallow
 	b.tailOnly = len(txs) > 1 && b.touchAny && !b.touch[0]
 	return b
+}
+
+func (w *world) buildItem(spec itemSpec, blocked map[who]bool) *built {
+	return w.signBody(w.buildBody(spec), spec, nil, blocked)
 }
 
 // ---------------------------------------------------------------------------------------------------------
@@ -509,7 +535,28 @@ type caseSpec struct {
 	HOff    int64      `json:"h_off"` // executor height = fork height + HOff (>= 1)
 	Blocked []spelled  `json:"blocked"`
 	Items   []itemSpec `json:"items"`
+	Twin    *twinSpec  `json:"twin,omitempty"`
 }
+
+// twinSpec is a history in which ONE unsigned body (single transaction or group) is presented several times under
+// different signature material -- the transaction id does not cover the signature, the sender comes from it -- with
+// the blacklist installed once at the start and changed only by the explicit steps.
+type twinSpec struct {
+	Item      itemSpec   `json:"item"`       // the body; its senders are signature set "orig" (one member is aimed at a blocked sender)
+	Alt       []who      `json:"alt"`        // signature set "alt": per member another signer; K == nKeys is the unfunded throwaway key
+	Other     who        `json:"other"`      // an account outside Blocked that the steps add to / drop from the blacklist
+	InitOther bool       `json:"init_other"` // the blacklist starts with Other in it
+	Steps     []twinStep `json:"steps"`
+}
+
+type twinStep struct {
+	Op    string `json:"op"`              // "present" | "traffic" (an unrelated clean transaction through pool and executor) | "reload" (same list installed again) | "toggleOther"
+	Ver   string `json:"ver,omitempty"`   // present: "alt" | "orig"
+	Route string `json:"route,omitempty"` // present: "exec" | "tx" | "delay" | "reorg"
+	HOff  int64  `json:"h_off,omitempty"` // present/exec: height = fork height + HOff (>= 1)
+}
+
+const rExec = "exec"
 
 func genWho(t *rapid.T, label string) who {
 	return who{K: rapid.IntRange(0, nKeys-1).Draw(t, label+"K"), Eth: rapid.Bool().Draw(t, label+"Eth")}
@@ -601,7 +648,86 @@ func genCase(t *rapid.T, para bool) *caseSpec {
 		it.Route = rapid.SampledFrom([]string{rTx, rTx, rTx, rDelay, rDelay, rReorg}).Draw(t, "route")
 		c.Items = append(c.Items, it)
 	}
+	c.Twin = genTwin(t, c, kinds, para)
 	return c
+}
+
+func genTwin(t *rapid.T, c *caseSpec, kinds []string, para bool) *twinSpec {
+	isBlocked := map[who]bool{}
+	for _, b := range c.Blocked {
+		isBlocked[b.who] = true
+	}
+	unblocked := func(label string, eth *bool) who { // a funded account outside the blacklist
+		a := genWho(t, label)
+		if eth != nil {
+			a.Eth = *eth
+		}
+		for isBlocked[a] {
+			if eth == nil {
+				a.Eth = !a.Eth
+			}
+			if eth != nil || !a.Eth {
+				a.K = (a.K + 1) % nKeys
+			}
+		}
+		return a
+	}
+	tw := &twinSpec{}
+	// the body: positions other than the sender are drawn freely (rarely blocked); one member's sender is blocked
+	n := rapid.SampledFrom([]int{1, 1, 2, 3}).Draw(t, "twinN")
+	if n == 1 && rapid.IntRange(0, 4).Draw(t, "twinProxy") == 0 {
+		tw.Item.Txs = []txShape{genShape(t, []string{kProxy}, nil, false, para)}
+	} else {
+		for j := 0; j < n; j++ {
+			tw.Item.Txs = append(tw.Item.Txs, genShape(t, kinds, nil, false, para))
+		}
+	}
+	aim := rapid.IntRange(0, len(tw.Item.Txs)-1).Draw(t, "twinAim")
+	hit := rapid.SampledFrom(c.Blocked).Draw(t, "twinHit").who
+	if sh := &tw.Item.Txs[aim]; sh.Kind != kProxy || hit.Eth {
+		sh.S = hit
+	}
+	yes := true
+	for _, sh := range tw.Item.Txs {
+		alt := sh.S
+		if isBlocked[sh.S] || rapid.IntRange(0, 3).Draw(t, "twinResign") == 0 {
+			switch {
+			case rapid.IntRange(0, 2).Draw(t, "twinThrow") == 0:
+				alt = who{K: nKeys, Eth: sh.S.Eth || sh.Kind == kProxy}
+			case sh.Kind == kProxy:
+				alt = unblocked("twinAlt", &yes)
+			default:
+				alt = unblocked("twinAlt", nil)
+			}
+		}
+		tw.Alt = append(tw.Alt, alt)
+	}
+	tw.Other = unblocked("twinOther", nil)
+	tw.InitOther = rapid.IntRange(0, 3).Draw(t, "twinInitOther") == 0
+	present := func(ver string) twinStep {
+		st := twinStep{Op: "present", Ver: ver, Route: rapid.SampledFrom([]string{rExec, rExec, rTx, rTx, rDelay, rReorg}).Draw(t, "twinRoute")}
+		if st.Route == rExec {
+			st.HOff = rapid.SampledFrom([]int64{0, 1, 0, 50, -1}).Draw(t, "twinHOff")
+		}
+		return st
+	}
+	if rapid.IntRange(0, 2).Draw(t, "twinBlockedFirst") == 0 {
+		tw.Steps = append(tw.Steps, present("orig"))
+	}
+	tw.Steps = append(tw.Steps, present("alt"))
+	for k := rapid.IntRange(0, 2).Draw(t, "twinMid"); k > 0; k-- {
+		op := rapid.SampledFrom([]string{"traffic", "traffic", "present", "reload", "toggleOther"}).Draw(t, "twinOp")
+		if op == "present" {
+			tw.Steps = append(tw.Steps, present("alt"))
+		} else {
+			tw.Steps = append(tw.Steps, twinStep{Op: op})
+		}
+	}
+	tw.Steps = append(tw.Steps, present("orig"))
+	if rapid.IntRange(0, 3).Draw(t, "twinAgain") == 0 {
+		tw.Steps = append(tw.Steps, present("orig"))
+	}
+	return tw
 }
 
 // ---------------------------------------------------------------------------------------------------------
@@ -782,6 +908,167 @@ func runCase(t lib.TB, test string, c *caseSpec) {
 			}
 		default:
 			lib.Class("pool_witness_refused_" + it.spec.Txs[0].Kind)
+		}
+	}
+
+	if c.Twin != nil {
+		runTwin(t, test, c, n)
+	}
+}
+
+// runTwin plays a twinSpec.  The oracle is the one of runCase, evaluated at every presentation against the
+// blacklist installed at that moment: at an active height a touching version gets ExecErr from the executor, and the
+// pool never admits one.  Unlike runCase the blacklist is NOT re-installed around each call -- a verdict the node
+// remembered for a transaction id must not outlive the signature it was reached for.
+func runTwin(t lib.TB, test string, c *caseSpec, n *node) {
+	w, tw := n.w, c.Twin
+	fail := func(format string, a ...interface{}) { lib.Violation(t, prop, test, c, format, a...) }
+	cur := map[who]bool{}
+	install := func() {
+		list := append([]spelled(nil), c.Blocked...)
+		if cur[tw.Other] {
+			list = append(list, spelled{who: tw.Other})
+		}
+		setBlacklist(list)
+	}
+	for _, b := range c.Blocked {
+		cur[b.who] = true
+	}
+	cur[tw.Other] = tw.InitOther
+	install()
+	defer types.SetBlockedAccountsForTest(nil)
+
+	body := w.buildBody(tw.Item)
+	origSigners := make([]who, len(tw.Item.Txs))
+	for i, sh := range tw.Item.Txs {
+		origSigners[i] = sh.S
+	}
+	inPool := func(hash []byte) bool {
+		l, err := n.mock.GetAPI().GetMempool(&types.ReqGetMempool{IsAll: true})
+		if err != nil {
+			lib.Inconclusive("GetMempool: %v", err)
+		}
+		for _, tx := range l.GetTxs() {
+			if bytes.Equal(tx.Hash(), hash) {
+				return true
+			}
+		}
+		return false
+	}
+	// deliver returns, for route exec, the receipts; for the pool routes whether the item was admitted (and removes it)
+	deliver := func(it *built, route string, height int64) (rc []int32, admitted bool) {
+		switch route {
+		case rExec:
+			got, err := util.ExecTx(n.mock.GetClient(), n.state, &types.Block{Height: height, BlockTime: n.btime + 1, Txs: it.expanded})
+			if err != nil || len(got.Receipts) != len(it.expanded) {
+				lib.Inconclusive("executor refused the twin list: %v", err)
+			}
+			for _, r := range got.Receipts {
+				rc = append(rc, r.Ty)
+			}
+			return rc, false
+		case rDelay:
+			_, err := n.mock.GetAPI().SendDelayTx(&types.DelayTx{Tx: it.pool, EndDelayTime: n.height + 100000}, true)
+			return nil, err == nil
+		case rReorg:
+			cli := n.mock.GetClient()
+			blk := &types.Block{Height: n.height, BlockTime: n.btime, Txs: it.expanded}
+			if err := cli.Send(cli.NewMessage("mempool", types.EventDelBlock, &types.BlockDetail{Block: blk}), false); err != nil {
+				lib.Inconclusive("EventDelBlock: %v", err)
+			}
+			admitted = inPool(it.pool.Hash())
+		default:
+			_, err := n.mock.GetAPI().SendTx(it.pool)
+			admitted = err == nil
+		}
+		if admitted { // leave the pool as it was: the next version of the body has the same id
+			_ = n.mock.GetAPI().RemoveTxsByHashList(&types.TxHashList{Hashes: [][]byte{it.pool.Hash()}})
+		}
+		return nil, admitted
+	}
+	heightOf := func(st twinStep) int64 {
+		if h := n.ForkH + st.HOff; h >= 1 {
+			return h
+		}
+		return 1
+	}
+	altSeen, reloaded := false, false // an alt presentation happened / the list was re-installed since
+	var last *twinStep
+	var lastIt *built
+	for si := range tw.Steps {
+		st := tw.Steps[si]
+		switch st.Op {
+		case "reload":
+			install()
+			reloaded = true
+		case "toggleOther":
+			cur[tw.Other] = !cur[tw.Other]
+			install()
+			reloaded = true
+		case "traffic":
+			spec := itemSpec{Txs: []txShape{{Kind: kNone, S: tw.Alt[0]}}} // an unrelated notary transaction
+			it := w.signBody(w.buildBody(spec), spec, nil, cur)
+			if !it.touchAny {
+				deliver(it, rTx, 0)
+				deliver(it, rExec, n.ForkH+1)
+			}
+		case "present":
+			signers := origSigners
+			if st.Ver == "alt" {
+				signers = tw.Alt
+			}
+			it := w.signBody(body, tw.Item, signers, cur)
+			height := heightOf(st)
+			rc, admitted := deliver(it, st.Route, height)
+			lib.Class("twin_present_" + st.Ver + "_" + st.Route)
+			primed := st.Ver == "orig" && altSeen && !reloaded && it.senderOnly
+			if primed {
+				lib.Class("twin_orig_sender_only_after_alt_no_reload_" + st.Route)
+			}
+			if st.Ver == "alt" && !it.touchAny {
+				altSeen, reloaded = true, false
+				if tw.Alt[0].throwaway() {
+					lib.Class("twin_alt_head_unfunded")
+				}
+			}
+			if it.touchAny && st.Route == rExec && height >= n.ForkH {
+				for j, r := range rc {
+					if it.touch[j] && r != types.ExecErr {
+						fail("twin step %d: height %d >= ForkAccountBlacklist %d: member %d (%s) of the %s-signed body touches a blocked account and got receipt type %d (ExecErr=%d expected)", si, height, n.ForkH, j, it.spec.Txs[j].Kind, st.Ver, r, types.ExecErr)
+					}
+				}
+			}
+			if it.touchAny && st.Route != rExec && admitted {
+				switch {
+				case it.proxyRcp && lib.Known(kfProxyPool):
+					lib.ExcludedKnown(kfProxyPool)
+				case st.Route == rDelay && it.tailOnly && lib.Known(kfDelayGroup):
+					lib.ExcludedKnown(kfDelayGroup)
+				case st.Route == rReorg && lib.Known(kfReorg):
+					lib.ExcludedKnown(kfReorg)
+				default:
+					fail("twin step %d: pool at height %d (ForkAccountBlacklist %d, exec check %v, route %s) admitted the %s-signed body, which touches a blocked account", si, n.height, n.ForkH, !n.DisableExecCheck, st.Route, st.Ver)
+				}
+			}
+			if primed && (st.Route != rExec || height >= n.ForkH) {
+				last, lastIt = &tw.Steps[si], it
+			}
+		}
+	}
+	// witness and non-triviality: an orig presentation that touched only through its signers, came after a clean alt
+	// presentation of the same body with no blacklist re-installation in between, and is packed / admitted as soon as
+	// the blacklist is empty
+	if last != nil {
+		types.SetBlockedAccountsForTest(nil)
+		rc, admitted := deliver(lastIt, last.Route, heightOf(*last))
+		ok := admitted
+		for _, r := range rc {
+			ok = ok || r != types.ExecErr
+		}
+		if ok {
+			lib.Class("twin_witness_ok")
+			lib.Class("twin_nontrivial")
+			lib.NonTrivialCase(map[string]interface{}{"level": "twin", "para": c.Para, "fork": n.ForkH, "pool_height": n.height, "blocked": c.Blocked, "twin": tw})
 		}
 	}
 }
